@@ -8,6 +8,10 @@ def meanUpdate (mean value n : Rat) : Rat := (mean + ((value - mean) / n))
 
 def giniFormula (num cum total : Rat) : Rat := (((num + (1 : Rat)) - (((2 : Rat) * cum) / total)) / num)
 
+def giniCumLoop (num : Rat) : Rat → List (Rat × Rat) → Rat
+  | cum, [] => cum
+  | cum, x :: xs => (giniCumLoop num ((cum + (x.2 * (num - x.1)))) xs)
+
 def giniTerm (v num i : Rat) : Rat := ((0 : Rat) + (v * (num - i)))
 
 def histTop (s mx : Rat) : Bool := (decide (s ≥ mx))
